@@ -105,7 +105,7 @@ PENDING_FINDINGS = [
 ]
 OUTSIDE = [
  'var, stddev, vector_norm (compositions of 5-7 views): solver out of memory (6 GB) after 405 s / 428 s / 73 s at extents <= 2 even with uninterpreted float arithmetic - not reached',
- 'mean with exact IEEE arithmetic (only the uninterpreted-arithmetic form returns a verdict); dtype argument of reductions (float/int result dtype)',
+ 'mean with exact IEEE arithmetic (only the uninterpreted-arithmetic form returns a verdict); result dtypes other than the two integer conversions covered (uint8->uint32 widening, uint32->uint8 narrowing): float result dtypes',
  'view::reduce(subtract, a, 2 axes) and its initial/keepdims form with a SYMBOLIC shape (no verdict in 900 s; decided per constant shape: 293 s / 664 s at (2,2,2)); '
  'symbolic-shape queries at extents 1..3 are thorough-tier only (reduce_subtract single axis: no verdict in 1200 s / 4.1 GB on the loaded machine, 764 s measured idle in DESIGN.md); extents > 3, source dims other than 3 (2 for trace/mean)',
  'compile-time (constant) axes and shapes, other container kinds (see C09); maximum/minimum/bitwise/logical reductions other than amax/amin (same reduce_t code, different functor: C07 leaf checks)',
